@@ -7,6 +7,7 @@ import (
 	"go/types"
 	"os"
 	"path/filepath"
+	"runtime/debug"
 	"sort"
 	"strconv"
 	"strings"
@@ -482,7 +483,7 @@ func (g *Engine) runPath(w *worker, in Instance, script []int64, solverKind stri
 				res.unsupp = "notPure escaped: " + x.what
 				res.end = "unsupported"
 			default:
-				res.crash = fmt.Sprintf("%v @ %s", r, e.where())
+				res.crash = fmt.Sprintf("%v @ %s [%s]", r, e.where(), crashFrames())
 				res.end = "crash"
 				if os.Getenv("GOSMT_DEBUG") != "" {
 					panic(r)
@@ -596,6 +597,18 @@ func (g *Engine) RunHarness(h *Harness, opts RunOpts) *HarnessResult {
 				mu.Unlock()
 
 				res := g.runPath(w, insts[t.inst], t.script, opts.Solver, opts.TimeoutMs)
+				if res.crash != "" && os.Getenv("GOSMT_NORETRY") == "" {
+					// an engine panic: re-execute the same decision script once on a
+					// fresh term context and solver process; a second panic is final.
+					// (The retry is reported as a note in the evidence.)
+					first := res.crash
+					w.paths = 1 << 30 // forces runPath to retire context and solver
+					res = g.runPath(w, insts[t.inst], t.script, opts.Solver, opts.TimeoutMs)
+					if res.notes == nil {
+						res.notes = map[string]int{}
+					}
+					res.notes["engine-panic-retried:"+first]++
+				}
 
 				mu.Lock()
 				active--
@@ -645,4 +658,22 @@ func (g *Engine) RunHarness(h *Harness, opts RunOpts) *HarnessResult {
 	wg.Wait()
 	hr.Wall = time.Since(t0)
 	return hr
+}
+
+// crashFrames: the innermost engine frames of the current panic (for the
+// inconclusive report).
+func crashFrames() string {
+	var out []string
+	for _, l := range strings.Split(string(debug.Stack()), "\n") {
+		if strings.HasPrefix(l, "main.") && !strings.HasPrefix(l, "main.crashFrames") && !strings.Contains(l, "runPath.func") {
+			if i := strings.IndexByte(l, '('); i > 0 {
+				l = l[:i]
+			}
+			out = append(out, l)
+			if len(out) == 4 {
+				break
+			}
+		}
+	}
+	return strings.Join(out, " < ")
 }
